@@ -25,8 +25,10 @@ DRIVERS = ["secret", "configmap", "memory"]
 # exhaustive configurations (constants, replay cap) and simulation (constants, behaviours) per tier
 PLAN = {
     "quick": dict(ex=[(dict(MaxLen=3, Full=False), 8000)], sim=[(dict(MaxLen=4, Full=False), 1500), (dict(MaxLen=4, Full=True), 400)]),
-    "thorough": dict(ex=[(dict(MaxLen=3, Full=False), None), (dict(MaxLen=3, Full=True), 20000), (dict(MaxLen=4, Full=False), 15000)],
-                     sim=[(dict(MaxLen=5, Full=True), 3000)]),
+    # (chains of 4 steps are no longer enumerated exhaustively: with failing steps and flag combinations that space has
+    #  tens of millions of chains; they are drawn by simulation instead)
+    "thorough": dict(ex=[(dict(MaxLen=3, Full=False), None), (dict(MaxLen=3, Full=True), 20000)],
+                     sim=[(dict(MaxLen=4, Full=False), 15000), (dict(MaxLen=5, Full=True), 3000)]),
 }
 
 
